@@ -278,6 +278,13 @@ where
                         what: "first path state is not bit-identical to the current start".into(),
                         call: ci,
                     });
+                    // C08: "a successful solve answers the problem installed by the latest setup / set_problem_definition"
+                    f.push(Finding {
+                        property: "C08",
+                        class: "answers_a_stale_problem".into(),
+                        what: "the returned path does not start at the start state of the most recently installed problem".into(),
+                        call: ci,
+                    });
                 }
             }
             if !(prob.goal.pred)(path.last().unwrap()) {
